@@ -176,6 +176,13 @@ class Ctx:
                     j = json.load(f)
                 j["_hashes"] = h
                 parsed.append(j)
+            elif rc is not None and -rc in (4, 6, 7, 8, 11):
+                # (SIGKILL is never counted: it comes from outside, e.g. the OOM killer.)
+                # The process running the code under test was killed by a signal (SIGBUS when a mapped
+                # segment is truncated under a reader, SIGSEGV, SIGABRT ...): that is an observation,
+                # not a lost run.
+                self.log("shard killed by signal %d: %s" % (-rc, text[-500:]))
+                parsed.append({"_crashed": -rc, "_cmd": " ".join(cmds[len(parsed)][:6]), "violations": [], "samples": []})
             else:
                 self.log("shard did not finish (rc=%s): %s" % (rc, text[-1500:]))
                 parsed.append(None)
